@@ -11,6 +11,7 @@ open BHS.Props.C06
 #print axioms C06_announce_partial
 #print axioms C06_tick_keeps_exhausted_peer
 #print axioms C06_tick_drops_passed_peer
+#print axioms C06_tick_keeps_passed_peer
 #print axioms exSetup
 #print axioms C06_linear_disabled_counterexample
 #print axioms C06_checkpoint_cursor_counterexample
